@@ -151,28 +151,30 @@ structure IndexFile where
   applied : Nat
   deriving Repr, DecidableEq, Inhabited
 
-/-- a file that holds nothing but (at most) the header and an empty index is (re)initialised -/
-def freshLimit : Nat := 9
+/-- a file shorter than the 8 header bytes plus the first length byte holds nothing yet -/
+def freshLimit : Nat := 8
 
-/-- `RaftIndexInnerManager::init` with the size below which the file counts as new;
+/-- the record part of the file (everything from offset 8): an all-default index is the single length byte 0;
+otherwise `FileMessageReader::read_next` at 8, then `read_message` (length prefix, body) -/
+def parseRec (tail : List Nat) : Option RaftIdx :=
+  if tail.head? = some 0 then some {} else
+  match readLen ⟨tail, 0⟩ with
+  | none => none
+  | some flen =>
+    let buf := tail.take flen
+    if buf.length < flen then none
+    else
+      match vlen buf, vreadGo 10 buf with
+      | some k, .ok n => decIdx ((buf.drop k).take n)
+      | _, _ => none
+
+/-- `RaftIndexInnerManager::init` with the size up to which the file counts as new;
 `none` = the error path (the manager actor stops) -/
 def initL (limit : Nat) (bytes : List Nat) : Option IndexFile :=
   if bytes.length ≤ limit then
     some ⟨writeAt bytes 0 (be8 0 ++ frame (encIdx {})), {}, 0⟩
   else
-    match readLen ⟨bytes, 8⟩ with
-    | none => none
-    | some flen =>
-      let buf := (bytes.drop 8).take flen
-      if buf.length < flen then none
-      else
-        -- `read_message`: length prefix, then the body
-        match vlen buf, vreadGo 10 buf with
-        | some k, .ok n =>
-          match decIdx ((buf.drop k).take n) with
-          | some idx => some ⟨bytes, idx, unbe8 bytes⟩
-          | none => none
-        | _, _ => none
+    (parseRec (bytes.drop 8)).map fun idx => ⟨bytes, idx, unbe8 bytes⟩
 
 def init (bytes : List Nat) : Option IndexFile := initL freshLimit bytes
 
